@@ -4,6 +4,8 @@ import (
 	"fmt"
 	"strings"
 
+	"github.com/philhassey/goatlang"
+
 	"verif/internal/core"
 )
 
@@ -33,7 +35,7 @@ type c17Case struct {
 func c17Source(k int, shape int, asPackage bool) string {
 	var sb strings.Builder
 	if asPackage {
-		sb.WriteString("package app\n\nimport (\n\t\"errors\"\n\t\"fmt\"\n)\n\n")
+		sb.WriteString("package app\n\nimport (\n\t\"errors\"\n\t\"fmt\"\n\t\"store\"\n)\n\n")
 	} else {
 		sb.WriteString("import (\n\t\"errors\"\n\t\"fmt\"\n)\n\n")
 	}
@@ -68,11 +70,38 @@ func c17Source(k int, shape int, asPackage bool) string {
 		sb.WriteString("const HasExtra = false\n\n")
 	}
 	sb.WriteString("func init() {\n\tloads++\n}\n\n")
-	sb.WriteString("func Tick() {\n\tkeep++\n\treset++\n\tresetS += \"+\"\n\tzi++\n\tzb = true\n\tzs += \"t\"\n\tzf += 0.5\n\tanyKeep = keep\n\tif obj != nil {\n\t\tobj.N += 10\n\t}\n}\n\n")
+	// many literals no other version has: the first load of a version makes the VM's tables grow
+	sb.WriteString("func filler() int {\n\ts := []string{")
+	for i := 0; i < 130; i++ {
+		fmt.Fprintf(&sb, "\"v%d-%d\", ", k, i)
+	}
+	sb.WriteString("}\n\treturn len(s)\n}\n\n")
+	// Mid is running while the host loads another version (reloadnow is a host function): the running body goes on,
+	// and what it reads and calls afterwards is the reloaded state and code
+	sb.WriteString("func Mid() string {\n\tbefore := keep\n\tr0 := reset\n\treloadnow()\n\tkeep++\n\treset += 5\n\treturn fmt.Sprint(before, keep, r0 > 0, reset) + \" \" + f1() + \" \" + resetS + fmt.Sprint(filler())\n}\n\n")
+	sb.WriteString("func Tick() {\n\tkeep++\n\treset++\n\tresetS += \"+\"\n" + c17StoreTick(asPackage) + "\tzi++\n\tzb = true\n\tzs += \"t\"\n\tzf += 0.5\n\tanyKeep = keep\n\tif obj != nil {\n\t\tobj.N += 10\n\t}\n}\n\n")
 	sb.WriteString("func Capture() {\n\tsaved = f0\n\tsavedG = g\n\tobj = &T{N: keep, Label: \"L\"}\n\tbound = obj.M\n\tboundP = obj.P\n\tholder = &H{F: f1, G: g, P: obj.P}\n\tlist = append(list, f1)\n\tnamer = obj\n\tlastErr = errors.New(\"e\" + fmt.Sprint(keep))\n}\n\n")
-	sb.WriteString("func Report() string {\n\ts := f0() + \" \" + f1() + \" \" + g(2)\n\tif saved != nil {\n\t\ts += \" saved=\" + saved() + \" savedG=\" + savedG(3) + \" bound=\" + bound() + \" holder=\" + holder.F() + holder.G(4) + \" obj=\" + obj.M() + \" boundP=\" + boundP(5) + \" holderP=\" + holder.P(6) + \" namer=\" + namer.M() + \" err=\" + lastErr.Error()\n\t\tfor _, f := range list {\n\t\t\ts += \" l=\" + f()\n\t\t}\n\t} else {\n\t\ts += \" saved=nil\"\n\t}\n\tif obj != nil && HasExtra {\n\t\ts += \" extra=\" + obj.Extra()\n\t}\n\tif anyKeep != nil {\n\t\ts += \" any=\" + fmt.Sprint(anyKeep)\n\t} else {\n\t\ts += \" any=nil\"\n\t}\n\ts += \" bump=\" + fmt.Sprint(Bump()) + \" z=\" + fmt.Sprint(zi) + fmt.Sprint(zb) + zs + fmt.Sprint(zf)\n\treturn s + \" keep=\" + fmt.Sprint(keep) + \" reset=\" + fmt.Sprint(reset) + \" resetS=\" + resetS + \" loads=\" + fmt.Sprint(loads)\n}\n")
+	sb.WriteString("func Report() string {\n\ts := f0() + \" \" + f1() + \" \" + g(2)\n\tif saved != nil {\n\t\ts += \" saved=\" + saved() + \" savedG=\" + savedG(3) + \" bound=\" + bound() + \" holder=\" + holder.F() + holder.G(4) + \" obj=\" + obj.M() + \" boundP=\" + boundP(5) + \" holderP=\" + holder.P(6) + \" namer=\" + namer.M() + \" err=\" + lastErr.Error()\n\t\tfor _, f := range list {\n\t\t\ts += \" l=\" + f()\n\t\t}\n\t} else {\n\t\ts += \" saved=nil\"\n\t}\n\tif obj != nil && HasExtra {\n\t\ts += \" extra=\" + obj.Extra()\n\t}\n\tif anyKeep != nil {\n\t\ts += \" any=\" + fmt.Sprint(anyKeep)\n\t} else {\n\t\ts += \" any=nil\"\n\t}\n" + c17StoreReport(asPackage) + "\ts += \" bump=\" + fmt.Sprint(Bump()) + \" z=\" + fmt.Sprint(zi) + fmt.Sprint(zb) + zs + fmt.Sprint(zf)\n\treturn s + \" keep=\" + fmt.Sprint(keep) + \" reset=\" + fmt.Sprint(reset) + \" resetS=\" + resetS + \" loads=\" + fmt.Sprint(loads)\n}\n")
 	return sb.String()
 }
+
+func c17StoreTick(asPackage bool) string {
+	if asPackage {
+		return "\tstore.Bump()\n"
+	}
+	return ""
+}
+
+func c17StoreReport(asPackage bool) string {
+	if asPackage {
+		return "\ts += \" store=\" + fmt.Sprint(store.Hits, store.Kept)\n"
+	}
+	return ""
+}
+
+// c17Store is an imported package whose source never changes: loading app again loads it again too, so its
+// initialised variable starts over and its uninitialised one is kept.
+const c17Store = "package store\n\nvar Hits = 100\nvar Kept int\n\nfunc Bump() {\n\tHits++\n\tKept++\n}\n"
 
 type c17Model struct {
 	ver       int
@@ -85,6 +114,10 @@ type c17Model struct {
 	objN      int
 	listLen   int
 	errN      int
+	pkg       bool
+	anySet    bool // anyKeep holds keep's value at the last tick
+	anyV      int
+	ticks     int // all ticks so far (store.Kept)
 	zticks    int // ticks since the last load: variables whose initialiser is a zero value are re-initialised too
 	evalLoads int
 }
@@ -112,10 +145,13 @@ func (m *c17Model) report() string {
 	if m.captured && k >= 2 && m.shape%3 != 0 {
 		s += fmt.Sprintf(" extra=Extra@v%d:%d", k, m.objN)
 	}
-	if m.keep > 0 {
-		s += fmt.Sprintf(" any=%d", m.keep)
+	if m.anySet {
+		s += fmt.Sprintf(" any=%d", m.anyV)
 	} else {
 		s += " any=nil"
+	}
+	if m.pkg {
+		s += fmt.Sprintf(" store=%d %d", 100+m.zticks, m.ticks)
 	}
 	s += fmt.Sprintf(" bump=768 z=%d%v%s%v", m.zticks, m.zticks > 0, strings.Repeat("t", m.zticks), float64(m.zticks)/2)
 	return s + fmt.Sprintf(" keep=%d reset=%d resetS=%s loads=%d", m.keep, m.reset, m.resetS, m.loads)
@@ -132,6 +168,9 @@ func c17Gen(seed int64, idx int) c17Case {
 		case r < 3:
 			cur = rng.Range(1, c.Versions)
 			c.Steps = append(c.Steps, c17Step{Op: "load", Ver: cur})
+		case r < 4 && rng.Bool():
+			cur = rng.Range(1, c.Versions)
+			c.Steps = append(c.Steps, c17Step{Op: "reload-inside", Ver: cur})
 		case r < 4:
 			c.Steps = append(c.Steps, c17Step{Op: "reload-same", Ver: cur})
 		case r < 7:
@@ -148,7 +187,18 @@ func c17Gen(seed int64, idx int) c17Case {
 
 func c17Run(c c17Case) (what string, trace []string) {
 	m := core.NewMachine(core.VMOpts{Optimize: true, Obs: core.NewObs(core.SmallBudget, false, nil)})
-	model := &c17Model{shape: c.Shape}
+	model := &c17Model{shape: c.Shape, pkg: c.Via == "load"}
+	target := 1
+	m.VM.Set("builtin.reloadnow", goatlang.NewFunc(0, 0, func(v *goatlang.VM) {
+		sys := core.MapFS(map[string]string{"app/app.go": c17Source(target, c.Shape, true), "store/store.go": c17Store})
+		if c.Via == "load" {
+			if err := v.Load(sys, "app"); err != nil {
+				panic(err)
+			}
+		} else if _, err := v.Eval(core.MapFS(map[string]string{}), "app.go", c17Source(target, c.Shape, false)); err != nil {
+			panic(err)
+		}
+	}))
 	prefix := "app."
 	if c.Via == "eval" {
 		prefix = "main."
@@ -158,7 +208,7 @@ func c17Run(c c17Case) (what string, trace []string) {
 		case "load", "reload-same":
 			var o core.Outcome
 			if c.Via == "load" {
-				sys := core.MapFS(map[string]string{"app/app.go": c17Source(st.Ver, c.Shape, true)})
+				sys := core.MapFS(map[string]string{"app/app.go": c17Source(st.Ver, c.Shape, true), "store/store.go": c17Store})
 				var err error
 				if p := core.Guard(func() { err = m.VM.Load(sys, "app") }); p != "" {
 					o.Panic = p
@@ -186,6 +236,8 @@ func c17Run(c c17Case) (what string, trace []string) {
 			model.reset++
 			model.resetS += "+"
 			model.zticks++
+			model.ticks++
+			model.anySet, model.anyV = true, model.keep
 			if model.captured {
 				model.objN += 10
 			}
@@ -199,6 +251,24 @@ func c17Run(c c17Case) (what string, trace []string) {
 			model.objN = model.keep
 			model.listLen++
 			trace = append(trace, "capture")
+		case "reload-inside":
+			target = st.Ver
+			o := m.Call(prefix+"Mid", 1)
+			if o.Failed() || len(o.Rets) != 1 {
+				return fmt.Sprintf("step %d: loading version %d from inside a running function failed: %s%s", si, st.Ver, core.ErrFirstLine(o.Err), o.Panic), trace
+			}
+			before := model.keep
+			model.ver = st.Ver
+			model.loads++
+			model.keep++
+			model.reset = 100*st.Ver + 5
+			model.resetS = fmt.Sprintf("init-v%d", st.Ver)
+			model.zticks = 0
+			want := fmt.Sprintf("%d %d true %d f1@v%d init-v%d130", before, model.keep, model.reset, st.Ver, st.Ver)
+			trace = append(trace, fmt.Sprintf("reload-inside v%d: %s", st.Ver, o.Rets[0]))
+			if o.Rets[0] != want {
+				return fmt.Sprintf("step %d: after %v a function that was running while version %d was loaded returns %q, the reload contract gives %q", si, trace[:len(trace)-1], st.Ver, o.Rets[0], want), trace
+			}
 		case "report":
 			o := m.Call(prefix+"Report", 1)
 			if o.Failed() || len(o.Rets) != 1 {
@@ -215,7 +285,7 @@ func c17Run(c c17Case) (what string, trace []string) {
 }
 
 func runC17(r *core.Run) {
-	r.SetRule("histories of 5-30 steps (load version k of 2-6, reload the same version, tick, capture, report) over a generated package whose function and method bodies return a version tag; captured before reloads: a function value in a no-initialiser global, function values in struct fields and in a slice, a bound method value, an instance; state: no-initialiser int and counters (kept), int and string variables with initialisers (re-initialised), variables whose initialiser spells the zero value (re-initialised), a function whose locals shadow package variables and are updated with += / ++ ; versions also differ in the arity of an internal helper and in added methods; through Load of a package and through repeated Eval of the definitions. non-trivial = at least 2 loads and 1 report after a capture; distinct by history")
+	r.SetRule("histories of 5-30 steps (load version k of 2-6, reload the same version, load a version from a host function while a script function is running, tick, capture, report) over a generated package whose function and method bodies return a version tag; captured before reloads: a function value in a no-initialiser global, function values in struct fields and in a slice, a bound method value, an instance; state: no-initialiser int and counters (kept), int and string variables with initialisers (re-initialised), variables whose initialiser spells the zero value (re-initialised), a function whose locals shadow package variables and are updated with += / ++ ; versions also differ in the arity of an internal helper and in added methods; every version brings 130 literals of its own (the VM's tables grow on its first load); the package imports a package whose source never changes (its initialised variable starts over with every load, its other variable is kept); through Load of a package and through repeated Eval of the definitions. non-trivial = at least 2 loads and 1 report after a capture; distinct by history")
 	r.Assume("the model encodes the contract stated in the property: after loading version k every function and method - also through references captured earlier - runs version k's body; variables without initialiser keep their values, variables with initialiser are reset, instances keep their fields")
 	n := r.N(3000, 120000)
 	core.Parallel((n+49)/50, func(chunk int) {
@@ -229,7 +299,7 @@ func runC17(r *core.Run) {
 			}
 			loads, capt := 0, false
 			for _, s := range c.Steps {
-				if s.Op == "load" || s.Op == "reload-same" {
+				if s.Op == "load" || s.Op == "reload-same" || s.Op == "reload-inside" {
 					loads++
 				}
 				if s.Op == "capture" {
